@@ -155,7 +155,56 @@ pub fn worker_main(
         .filter(|(i, _)| i % nparts == part)
         .map(|(_, c)| c)
         .collect();
-    for case in mine.iter() {
+    // Cases (positions in this part's list) that killed an earlier incarnation of this worker:
+    // they are run in a child process, which turns "the process died" into a verdict.
+    let isolate_positions: BTreeSet<usize> = std::env::var("MC_ISOLATE_POSITIONS")
+        .ok()
+        .map(|s| s.split(',').filter_map(|x| x.parse().ok()).collect())
+        .unwrap_or_default();
+    let cur_path = out.with_extension("cur");
+    // Watchdog for engines that run their cases in-process: a case that does not come back
+    // within the limit ends this worker (exit 3); the coordinator restarts the part with that
+    // case isolated, where the hang is a verdict about the case.
+    let case_started = std::sync::Arc::new(std::sync::atomic::AtomicU64::new(0));
+    if !plan.isolate {
+        let cs = case_started.clone();
+        let limit_ms: u64 = std::env::var("MC_CASE_LIMIT_S").ok().and_then(|s| s.parse().ok()).unwrap_or(90) * 1000;
+        let t0w = t0;
+        std::thread::spawn(move || loop {
+            std::thread::sleep(Duration::from_millis(500));
+            let st = cs.load(std::sync::atomic::Ordering::SeqCst);
+            if st != 0 && (t0w.elapsed().as_millis() as u64).saturating_sub(st) > limit_ms {
+                eprintln!("WATCHDOG: the current case has been running for more than {} s", limit_ms / 1000);
+                std::process::exit(3);
+            }
+        });
+    }
+    let start_pos: usize = std::env::var("MC_START_POS").ok().and_then(|s| s.parse().ok()).unwrap_or(0);
+    let ck_path = out.with_extension("ck");
+    let mut last_ck = Instant::now();
+    for (pos, case) in mine.iter().enumerate() {
+        if pos < start_pos {
+            continue;
+        }
+        if last_ck.elapsed() > Duration::from_secs(2) {
+            // everything before `pos` is accounted for in this checkpoint
+            let res = json!({
+                "part": part, "evaluations": evaluations, "total_cases_in_part": mine.len(),
+                "skipped": skipped, "timed_out": timed_out, "next_pos": pos,
+                "sigs": sigs.iter().collect::<Vec<_>>(),
+                "nontrivial": nontrivial_sigs.iter().collect::<Vec<_>>(),
+                "states": states.iter().collect::<Vec<_>>(),
+                "transitions": transitions, "goals": goals, "violations": violations, "samples": samples,
+                "completed_bound": completed_bound, "wall_s": t0.elapsed().as_secs_f64(),
+            });
+            let tmp = out.with_extension("ck.tmp");
+            if std::fs::write(&tmp, serde_json::to_vec(&res).unwrap()).is_ok() {
+                let _ = std::fs::rename(&tmp, &ck_path);
+            }
+            last_ck = Instant::now();
+        }
+        let _ = std::fs::write(&cur_path, pos.to_string());
+        case_started.store((t0.elapsed().as_millis() as u64).max(1), std::sync::atomic::Ordering::SeqCst);
         let b = case.get("bound").and_then(|x| x.as_u64()).unwrap_or(0);
         if cur_bound != Some(b) {
             if let Some(cb) = cur_bound {
@@ -172,6 +221,11 @@ pub fn worker_main(
         }
         let o = if plan.isolate {
             run_isolated(prop, case, plan.case_timeout_s, plan.timeout_is_violation)
+        } else if isolate_positions.contains(&pos) || isolate_positions.len() >= 3 {
+            // (after three deaths in this part every remaining case gets a process of its own)
+            // the watchdog of the isolated child is this timeout; the parent's is suspended
+            case_started.store(0, std::sync::atomic::Ordering::SeqCst);
+            run_isolated(prop, case, 60, true)
         } else {
             run_guarded(engine.as_mut(), prop, case)
         };
@@ -254,12 +308,15 @@ pub fn run_isolated(prop: &str, case: &Value, timeout_s: u64, timeout_is_violati
 
 fn run_isolated_once(prop: &str, case: &Value, timeout_s: u64, timeout_is_violation: bool) -> Outcome {
     let exe = std::env::current_exe().unwrap();
+    let errpath = std::env::temp_dir().join(format!("mc-case-{}-{:?}.err", std::process::id(), std::thread::current().id()));
+    let errfile = std::fs::File::create(&errpath).ok();
     let mut child = Command::new(exe)
         .arg("case")
         .arg(prop)
+        .env("MC_VERBOSE", "1")
         .stdin(Stdio::piped())
         .stdout(Stdio::piped())
-        .stderr(Stdio::null())
+        .stderr(errfile.map(Stdio::from).unwrap_or_else(Stdio::null))
         .spawn()
         .expect("spawn case child");
     child
@@ -281,10 +338,24 @@ fn run_isolated_once(prop: &str, case: &Value, timeout_s: u64, timeout_is_violat
                     }
                 }
                 // No outcome line: the child died (abort / signal).
+                let err = std::fs::read_to_string(&errpath).unwrap_or_default();
+                let _ = std::fs::remove_file(&errpath);
+                let lines: Vec<&str> = err.lines().collect();
+                let mut panics: Vec<String> = vec![];
+                for (i, l) in lines.iter().enumerate() {
+                    if let Some(rest) = l.strip_prefix("panic: panicked at ") {
+                        let loc = rest.trim_end_matches(':');
+                        if loc.starts_with("/rustc/") {
+                            continue;
+                        }
+                        panics.push(format!("{} ({})", lines.get(i + 1).copied().unwrap_or(""), loc.rsplit("/repo/").next().unwrap_or(loc)));
+                    }
+                }
+                let first_loc = panics.first().and_then(|p| p.rsplit('(').next()).map(|s| s.trim_end_matches(')').rsplitn(2, ':').last().unwrap_or("").to_string()).unwrap_or_default();
                 return Outcome {
                     violation: Some(Violation::new(
-                        "abort",
-                        format!("process died without a verdict: {status:?}"),
+                        format!("abort@{first_loc}"),
+                        format!("the process died during this history ({status:?}); panics before it died: {}", if panics.is_empty() { "none recorded".to_string() } else { panics.join(" | ") }),
                     )),
                     nontrivial: true,
                     ..Default::default()
@@ -457,27 +528,57 @@ pub fn check_main(make: &dyn Fn(&str) -> Option<Box<dyn Engine>>, prop: &str, ti
     let _ = std::fs::remove_dir_all(&outdir);
     std::fs::create_dir_all(&outdir).unwrap();
     let exe = std::env::current_exe().unwrap();
-    let mut children = vec![];
-    for part in 0..nparts {
+    let spawn_worker = |part: usize, isolate: &BTreeSet<usize>, start_pos: usize| {
         let out = outdir.join(format!("part{part}.json"));
+        let _ = std::fs::remove_file(out.with_extension("ck"));
         let log = std::fs::File::create(outdir.join(format!("part{part}.log"))).unwrap();
         let child = Command::new(&exe)
             .args(["worker", prop, tier, &part.to_string(), &nparts.to_string()])
             .arg(&out)
+            .env("MC_ISOLATE_POSITIONS", isolate.iter().map(|x| x.to_string()).collect::<Vec<_>>().join(","))
+            .env("MC_START_POS", start_pos.to_string())
             .stdout(Stdio::null())
             .stderr(log)
             .spawn()
             .expect("spawn worker");
+        (child, out)
+    };
+    let mut children = vec![];
+    for part in 0..nparts {
+        let (child, out) = spawn_worker(part, &BTreeSet::new(), 0);
         children.push((part, child, out));
     }
     // Watchdog: budget + generous grace.
     let hard = Duration::from_secs(plan.budget_s * 3 + 120);
     let mut results = vec![];
-    for (part, mut child, out) in children {
+    let mut worker_restarts = 0u64;
+    for (part, mut child, mut out) in children {
+        let mut isolate: BTreeSet<usize> = BTreeSet::new();
+        let mut extra = Duration::from_secs(0);
+        let mut start_pos = 0usize;
         loop {
             match child.try_wait().unwrap() {
                 Some(st) => {
                     if !st.success() {
+                        // The process died (abort, signal) while running a case: restart this
+                        // part with that case executed in a child of its own, where a dying
+                        // process is a verdict about the case.
+                        let cur = std::fs::read_to_string(out.with_extension("cur")).ok().and_then(|s| s.trim().parse::<usize>().ok());
+                        if let Some(pos) = cur {
+                            if st.code() != Some(2) && isolate.insert(pos) && isolate.len() <= 40 {
+                                worker_restarts += 1;
+                                // keep what the dead incarnation had checkpointed and go on from there
+                                if let Some(ck) = std::fs::read(out.with_extension("ck")).ok().and_then(|d| serde_json::from_slice::<Value>(&d).ok()) {
+                                    start_pos = ck["next_pos"].as_u64().unwrap_or(start_pos as u64) as usize;
+                                    results.push(ck);
+                                }
+                                let (c, o) = spawn_worker(part, &isolate, start_pos);
+                                child = c;
+                                out = o;
+                                extra = t0.elapsed();
+                                continue;
+                            }
+                        }
                         let log = std::fs::read_to_string(outdir.join(format!("part{part}.log")))
                             .unwrap_or_default();
                         eprintln!(
@@ -489,7 +590,7 @@ pub fn check_main(make: &dyn Fn(&str) -> Option<Box<dyn Engine>>, prop: &str, ti
                     break;
                 }
                 None => {
-                    if t0.elapsed() > hard {
+                    if t0.elapsed() > hard + extra {
                         let _ = child.kill();
                         eprintln!("MACHINERY: worker {part} exceeded the hard time limit");
                         return 2;
